@@ -237,6 +237,23 @@ func gen(r *vhlib.Rand, i int, o vhlib.Opts) any {
 		return input{W: cfgNames[p/4], R: cfgNames[p%4], Enc: e, Level: 0, SLen: 8192, SCap: 8192, Blocks: []blockIn{
 			{"text", 0, 1}, {"random", 5, uint64(i)}, {"text", 3000, uint64(i)}, {"counters", 20000, uint64(i)}, {"random", 300, uint64(i)}}}
 	}
+	// 16 more fixed cases: nearly incompressible blocks that FIT GPFile's 8192-byte scratch buffer while their
+	// worst-case frame does not (8145..8191 bytes), and a scratch buffer a few bytes larger than the block
+	if i < 64 {
+		k := i - 48
+		e := []string{"lz4", "zstd"}[k%2]
+		w := []string{"cgo", "nocgo"}[(k/2)%2]
+		in := input{W: w, R: []string{"nocgo", "cgo", "noliblz4", "nolibzstd"}[k%4], Enc: e, Level: []int{0, 1, 9, 12}[k/4], SLen: 8192, SCap: 8192}
+		if k < 8 {
+			in.Blocks = []blockIn{{"random", []int{8150, 8176, 8190, 8191}[k/2], uint64(k)}, {"text", 700, uint64(k)}}
+		} else {
+			n := []int{64, 4096, 16380, 40000}[(k-8)/2]
+			in.SCap = n + []int{1, 8}[k%2]
+			in.SLen = in.SCap * (k % 2)
+			in.Blocks = []blockIn{{"random", n, uint64(k)}, {"mixed", n / 2, uint64(k)}}
+		}
+		return in
+	}
 	in := input{W: vhlib.Pick(r, cfgNames), R: vhlib.Pick(r, cfgNames), SLen: 8192, SCap: 8192}
 	switch x := r.Intn(100); {
 	case x < 8:
@@ -275,6 +292,15 @@ func gen(r *vhlib.Rand, i int, o vhlib.Opts) any {
 			b.Size = r.Intn(9000)
 		}
 		in.Blocks = append(in.Blocks, b)
+	}
+	if r.Chance(20) { // scratch sized relative to one of the blocks, that block incompressible
+		b := &in.Blocks[r.Intn(len(in.Blocks))]
+		b.Kind = "random"
+		in.SCap = max(0, b.Size+vhlib.Pick(r, []int{-1, 0, 1, 8, b.Size/255 + 15, b.Size/255 + 16, b.Size/255 + 17}))
+		in.SLen = in.SCap * r.Intn(2)
+	} else if r.Chance(15) { // fits the 8192-byte buffer, its bound does not
+		in.SLen, in.SCap = 8192, 8192
+		in.Blocks[0] = blockIn{Kind: "random", Size: 8100 + r.Intn(92), Seed: r.U64() >> 16}
 	}
 	return in
 }
